@@ -33,6 +33,7 @@ PURE_LIBC = {
     'fabs', 'fabsf', 'floor', 'ceil', 'sqrt', 'pow', 'fmod', 'log', 'log10', 'exp', 'frexp', 'ldexp',
     'modf', 'trunc', 'round', 'fmin', 'fmax', 'isnan', 'isinf', 'copysign', 'nan',
     'abs', 'labs', 'llabs', 'div', 'ldiv', 'qsort', 'bsearch',
+    '__errno_location',        # errno is thread-local (C11 7.5, POSIX): reading or clearing it shares nothing between threads
     '__builtin_fabs', '__builtin_expect', '__builtin_memcpy', '__builtin_memset', '__builtin_strlen',
     '__builtin_isnan', '__builtin_isinf', '__builtin_isinf_sign', '__builtin_nan', '__builtin_inf',
     '__builtin_huge_val', '__builtin_strcmp', '__builtin_strcpy', '__builtin_object_size',
